@@ -5,6 +5,12 @@ Legs (DESIGN 3.3):
       are regenerated from the snapshot; the theorems of Props/C01.lean are re-checked against them (framework).
   (b) model <-> code, text: Model/C01Codegen (typing by Gen + instruction selection) must print exactly the lines
       `chibicc -S` prints for `R f(T1 a, T2 b) { return a OP b; }`, every OP, every 9x9 pair, unary operators, casts.
+  (b2) Model/C01Expr `compileE` / `compileX` (the objects of C01_value / C01_value_effects: gen_expr on whole expression trees
+      incl. `,` `=` `op=` `++` `--` with the hidden temporaries of parse.c to_assign / new_inc_dec): instruction text of
+      generated nests = `chibicc -S`, stack depth = depthX, and chibicc's frame offsets satisfy `layoutOK` (C01_layout).
+  (b3) pointer arithmetic (parse.c new_add / new_sub; C01_ptr_scale / C01_ptr_add / C01_ptr_diff): instruction text of p+i, i+p,
+      p-i, &p[i], p-q, p+=i, p-=i, ++p, --p, p++, p-- for every element size x index type = the model (64-bit imul of the
+      sign/zero-extended index); plus an end-to-end oracle with byte offsets beyond 2^31 / 2^32 inside a 16 GiB PROT_NONE mapping.
   (c) Model/X86 <-> CPU: every sequence the theorems talk about is assembled and run on the host on boundary + random
       register files; registers and defined flags must equal `drv_c01 x86exec`; #DE must coincide with `none`.
   (d) Spec <-> gcc and Spec <-> chibicc, end to end: generated expression programs (exhaustive operator x 9x9 type pairs
@@ -30,9 +36,13 @@ TRUSTED_BASE = [
     'on every instruction sequence the theorems mention (boundary + seeded random register files, #DE included)',
     'Model/C01Codegen.lean (hand model of the integer arms of gen_expr/cast/cmp_zero/load); tied by text equality with '
     '`chibicc -S` on all operator x 9x9 type pairs, unary operators and casts',
+    'Model/C01Expr.lean (compileE / compileX: gen_expr on whole expression trees, the parse.c rewritings of op= / ++ / -- with '
+    'their hidden temporaries, pointer-arithmetic scaling of new_add / new_sub); tied by instruction-text equality with '
+    '`chibicc -S` on generated nests and on every pointer form x element size x index type; frame offsets checked by layoutOK',
     'translators tools/extract/commontype.py (get_common_type, add_type rules, primitive types) and casttable.py '
-    '(cast_table, getTypeId); parse.c rewritings (op=, ++/--, pointer scaling, argument/return conversions) are not '
-    'modelled in Lean beyond the postfix-inc/dec value formula: they are covered by the end-to-end oracle only (testing)',
+    '(cast_table, getTypeId); argument / return / initializer conversion insertion of parse.c is modelled as a cast of the '
+    'expression (tied by the text legs); `&&` `||` `?:` (jumps), postfix ++/-- on _Bool, lvalues other than variables and '
+    'compound assignment to pointers are covered by the text ties and the end-to-end oracle only (testing)',
 ]
 ASSUMPTIONS = ['LP64, plain char signed, two\'s complement, arithmetic >> on signed (gcc\'s documented choices)',
                'expressions without unsequenced conflicting accesses (the generator modifies a variable at most once and '
@@ -657,6 +667,77 @@ def run_pointers(ctx, corr, K):
                                     'input': ex, 'expected': want, 'got': rc_c[0].get(n)})
             return
 
+# ------------------------------------------------------------------ pointer scaling with large byte offsets (no memory touched)
+
+def scaling_indices(t, esz, rng, extra):
+    """index values whose byte offset idx*esz crosses 2^31 and 2^32 in both directions (where the index type and the 8 GiB
+    window allow), plus small controls"""
+    lim = (8 << 30) - (1 << 20)
+    vs = {0, 1, -1, 2, 1000, -1000, tmax(t), tmin(t), tmax(t) - 1, tmin(t) + 1}
+    for b in (1 << 31, 1 << 32, (1 << 31) + (1 << 30), (1 << 32) + (1 << 31), 1 << 30, (1 << 33) - (1 << 24)):
+        q = b // esz
+        for d in (-1, 0, 1, 7):
+            vs.add(q + d)
+            vs.add(-(q + d))
+    for _ in range(extra):
+        vs.add(rng.randint(-(lim // esz), lim // esz))
+    return sorted(v for v in vs if tmin(t) <= v <= tmax(t) and abs(v * esz) <= lim)
+
+def run_pointer_scaling(ctx, corr, extra, only=None):
+    """p + i, i + p, p - i, &p[i], p += i, p -= i and the comparisons p + i > p, p + i == p for element sizes 1 ... 1 MiB and
+    every index type, with byte offsets beyond 2^31 and 2^32 in both directions; the pointers stay inside one 16 GiB
+    mapping reserved with mmap(PROT_NONE, MAP_NORESERVE) and are never dereferenced.  Expected values: C11 6.5.6p8/p9
+    (byte offset = idx * sizeof *p, element difference = idx), computed here; gcc must agree (spec validation)."""
+    rng = ctx.rng
+    body, exp, n = '', [], 0
+    for et, esz in PTR_ELEMS:
+        for t in TYS:
+            cn = CNAME[t]
+            for idx in (scaling_indices(t, esz, rng, extra) if only is None else [only[3]] if (et, t) == (only[0], only[2]) else []):
+                off = idx * esz
+                body += (f'  {{ {et} *p = ({et} *)mid; {cn} i = ({cn}){clit(idx)}; {et} *q = p; {et} *r = p; q += i; r -= i;\n'
+                         f'    printf("{n} %ld %ld %ld %ld %ld %ld %d %d %d\\n", (long)((char *)(p + i) - (char *)p), '
+                         f'(long)((char *)(i + p) - (char *)p), (long)((char *)(p - i) - (char *)p), (long)(&p[i] - p), '
+                         f'(long)((char *)q - (char *)p), (long)((char *)r - (char *)p), p + i > p, p + i == p, (int)sizeof(p + i)); }}\n')
+                exp.append((n, f'{et} *p; {cn} i = {idx}: p + i, i + p, p - i, &p[i] - p, p += i, p -= i (byte offsets), p + i > p, p + i == p, sizeof',
+                            [str(off), str(off), str(-off), str(idx), str(off), str(-off), str(int(idx > 0)), str(int(idx == 0)), '8'],
+                            [et, esz, t, idx]))
+                n += 1
+    text = ('int printf(const char *, ...);\nvoid *mmap(void *, unsigned long, int, int, int, long);\n' + PTR_STRUCTS +
+            'int main(void) {\n  char *base = mmap(0, 16UL << 30, 0, 0x02 | 0x20 | 0x4000, -1, 0);\n'
+            '  if (base == (char *)-1) { printf("mmap-failed\\n"); return 0; }\n  char *mid = base + (8UL << 30);\n' + body + '  return 0;\n}\n')
+    src = os.path.join(ctx.scratch, 'ptrscale.c')
+    open(src, 'w').write(text)
+    rc_c = compile_run([ctx.cc, '-o', src + '.chibi', src], src + '.chibi')
+    rc_g = compile_run(['gcc', '-std=c11', '-w', '-O0', '-o', src + '.gcc', src], src + '.gcc')
+    for pth in (src + '.chibi', src + '.gcc'):
+        if os.path.exists(pth):
+            os.unlink(pth)
+    if rc_g[0] is None:
+        corr.disagreements.append({'kind': 'gcc', 'note': 'gcc rejected the pointer-scaling program: ' + str(rc_g[1])})
+        return
+    if not rc_g[0]:
+        corr.count('skipped_mmap_failed')
+        ctx.notes.append('pointer scaling: the 16 GiB PROT_NONE reservation failed; leg skipped')
+        return
+    if rc_c[0] is None:
+        corr.violations.append({'what': 'chibicc fails on the pointer-scaling program', 'input': text[:1500], 'expected': 'compiles', 'got': rc_c[1]})
+        return
+    for k, what, want, case in exp:
+        corr.evaluations += 1
+        corr.count('pointer-scaling')
+        if abs(int(want[0])) >= (1 << 31):
+            corr.nontrivial.add('ptrscale:' + hashlib.sha1(what.encode()).hexdigest())
+        if rc_g[0].get(k) != want:
+            corr.disagreements.append({'kind': 'spec-vs-gcc', 'input': what, 'spec': want, 'gcc': rc_g[0].get(k),
+                                       'note': 'expected pointer-arithmetic values (C11 6.5.6) disagree with gcc'})
+            return
+        if rc_c[0].get(k) != want:
+            corr.violations.append({'what': 'pointer arithmetic: the index is not scaled as C11 6.5.6p8 prescribes (fields: byte offset of p + i, '
+                                            'i + p, p - i, element difference &p[i] - p, byte offset after p += i, p -= i, p + i > p, p + i == p, sizeof)',
+                                    'input': what, 'expected': want, 'got': rc_c[0].get(k), 'ptr_scale': case})
+            return
+
 # ------------------------------------------------------------------ leg (b): instruction text
 
 def fn_text(asm, name):
@@ -816,8 +897,9 @@ def check_compile(ctx, corr, N):
     parse.c rewritings: `R f(T0 v0, ..) { return EXPR; }` for generated expression nests - pure ones, and ones with `,` `=`
     `op=` `++` `--` on variables; the instructions between the prologue and `jmp .L.return.f` must be exactly the ones
     `drv_c01 compilex` prints for `(R)EXPR` (hidden temporaries of op= / ++ / --: the frame slots that are not parameters, in
-    order of creation = ascending offset), a pure nest must get the same code from `compileE`, and the deepest push nesting
-    must equal `depthX`."""
+    order of creation = ascending offset), a pure nest must get the same code from `compileE`, the deepest push nesting
+    must equal `depthX`, and the frame chibicc lays out (parameter and temporary offsets, `sub $N, %rsp`) must satisfy the
+    layout hypothesis of the theorems (`layoutOK`: inside the frame, pairwise disjoint)."""
     rng = ctx.rng
     cases, src = [], ''
     fixed = [(['i8', 'u32', 'bool'], 'i64', ('B', 'gt', ('B', 'add', ('V', 0), ('B', 'mul', ('V', 1), ('L', 'i32', 2))),
@@ -872,7 +954,11 @@ def check_compile(ctx, corr, N):
             offs.append(mm.group(1))
         body = body_instrs(lines[4 + len(tys):])
         temps = sorted({int(x) for i in body for x in re.findall(r'(-?\d+)\(%rbp\)', i)} - {int(o) for o in offs})
-        req += f"{','.join(tys)} {','.join(offs)} {','.join(str(x) for x in temps) or '-'} | CAST {ret} {rp(e)}\n"
+        mm = re.fullmatch(r'\s*sub \$(\d+), %rsp', lines[2])
+        if not mm:
+            corr.disagreements.append({'kind': 'asm-text', 'spec': name, 'note': 'prologue of unknown shape: ' + lines[2]})
+            return
+        req += f"{','.join(tys)} {','.join(offs)} {','.join(str(x) for x in temps) or '-'} {mm.group(1)} | CAST {ret} {rp(e)}\n"
         live.append((name, tys, ret, e, body, len(temps)))
     model = ctx.driver('compilex', req).splitlines()
     if len(model) != len(live):
@@ -881,13 +967,13 @@ def check_compile(ctx, corr, N):
     for (name, tys, ret, e, got, ntemps), m in zip(live, model):
         corr.evaluations += 1
         ctext = [l for l in src.splitlines() if f' {name}(' in l][0]
-        w = m.split(' ', 6)
-        if w[0] != 'ok' or len(w) < 7:
+        w = m.split(' ', 7)
+        if w[0] != 'ok' or len(w) < 8:
             corr.disagreements.append({'kind': 'asm-text', 'c': ctext, 'note': 'compileX does not handle the expression: ' + m[:80]})
             return
         is_pure = all(x[0] in ('L', 'V', 'U', 'B', 'CAST') for x in subexprs(e))
         corr.count('compile-tie:' + ('pure' if is_pure else 'effects, no conflict' if w[4] == '1' else 'effects, conflicting accesses'))
-        want = [] if w[6] == 'empty' else w[6].split(';;')
+        want = [] if w[7] == 'empty' else w[7].split(';;')
         if len(got) > 12:
             corr.nontrivial.add('tie:' + hashlib.sha1(ctext.encode()).hexdigest())
         bad = None
@@ -899,6 +985,9 @@ def check_compile(ctx, corr, N):
             bad = {'note': f'stack slots: chibicc nests push {push_depth(got)} deep, depthX = {w[2]}'}
         elif ntemps != int(w[3]):
             bad = {'note': f'hidden temporaries: chibicc uses {ntemps} frame slots besides the parameters, the model {w[3]}'}
+        elif w[6] != '1':
+            bad = {'note': 'frame layout: the variables and hidden temporaries of the function do not lie pairwise disjoint inside the '
+                           'frame `sub $N, %rsp` allocates (hypothesis `Lay` of C01_value_effects, `layoutOK`)'}
         elif is_pure != (w[5] == '1'):
             bad = {'note': 'compileE and compileX disagree on a pure expression' if is_pure else 'compileE accepts an expression with side effects'}
         if bad:
@@ -907,6 +996,76 @@ def check_compile(ctx, corr, N):
             corr.disagreements.append(bad)
             return
     corr.extra['expression_trees_compared_with_chibicc_S'] = len(live)
+
+# ------------------------------------------------------------------ leg (b3): pointer arithmetic, instruction text
+
+PTR_ELEMS = [('signed char', 1), ('short', 2), ('int', 4), ('long', 8), ('struct S16', 16), ('struct S12', 12),
+             ('struct S4096', 4096), ('struct S1M', 1048576)]
+PTR_STRUCTS = ('struct S16 { long a, b; };\nstruct S12 { int a, b, c; };\nstruct S4096 { char x[4096]; };\n'
+               'struct S1M { char x[1048576]; };\n')
+
+def check_pointer_text(ctx, corr):
+    """Model/C01Expr `scaleCode` / `ptrAddCode` / `ptrDiffCode` / `ptrOpAssignCode` / `ptrPostCode` (objects of C01_ptr_scale,
+    C01_ptr_add, C01_ptr_diff) against parse.c new_add / new_sub + gen_expr: for every element size and every index type
+    the instructions of `p + i`, `i + p`, `p - i`, `&p[i]`, `p - q`, `p += i`, `p -= i`, `++p`, `--p`, `p++`, `p--` must be
+    the model's: in particular the index is converted to (unsigned) long and multiplied by a 64-bit `imul`."""
+    cases, src = [], PTR_STRUCTS
+    for et, esz in PTR_ELEMS:
+        for t in TYS:
+            for form, ex in (('add', 'p + i'), ('add', 'i + p'), ('sub', 'p - i'), ('add', '&p[i]'), ('add', '&i[p]'),
+                             ('addassign', 'p += i'), ('subassign', 'p -= i')):
+                name = f'q{len(cases)}'
+                src += f'long {name}({et} *p, {CNAME[t]} i) {{ return (long)({ex}); }}\n'
+                cases.append((name, form, t, esz, 2))
+        name = f'q{len(cases)}'
+        src += f'long {name}({et} *p, {et} *i) {{ return p - i; }}\n'
+        cases.append((name, 'diff', 'i64', esz, 2))
+        for form, ex in (('preinc', '++p'), ('predec', '--p'), ('postinc', 'p++'), ('postdec', 'p--')):
+            name = f'q{len(cases)}'
+            src += f'long {name}({et} *p) {{ return (long)({ex}); }}\n'
+            cases.append((name, form, 'i32', esz, 1))
+    path = os.path.join(ctx.scratch, 'ptrtie.c')
+    open(path, 'w').write(src)
+    rc_, asm, err = sh([ctx.cc, '-S', '-o', '-', path], timeout=300)
+    if rc_ != 0:
+        corr.violations.append({'what': 'chibicc -S fails on one-line pointer-arithmetic functions', 'input': src[:600],
+                                'expected': 'compiles', 'got': err[-300:]})
+        return
+    req, live = '', []
+    for name, form, t, esz, nparams in cases:
+        lines = fn_text(asm, name)
+        if lines is None or len(lines) < 4 + nparams:
+            corr.disagreements.append({'kind': 'asm-text', 'spec': name, 'note': 'function not found in chibicc -S output'})
+            return
+        offs = []
+        for l in lines[4:4 + nparams]:
+            mm = re.fullmatch(r'\s*mov %\w+, (-?\d+)\(%rbp\)', l)
+            if not mm:
+                corr.disagreements.append({'kind': 'asm-text', 'spec': name, 'note': 'prologue of unknown shape: ' + l})
+                return
+            offs.append(int(mm.group(1)))
+        body = body_instrs(lines[4 + nparams:])
+        temps = sorted({int(x) for i in body for x in re.findall(r'(-?\d+)\(%rbp\)', i)} - set(offs))
+        req += f'{form} {t} {esz} {offs[0]} {offs[1] if nparams > 1 else 0} {temps[0] if temps else 0}\n'
+        live.append((name, form, t, esz, body))
+    model = ctx.driver('ptrseq', req).splitlines()
+    if len(model) != len(live):
+        corr.disagreements.append({'kind': 'driver', 'note': f'drv_c01 ptrseq answered {len(model)} lines for {len(live)} functions'})
+        return
+    for (name, form, t, esz, got), m in zip(live, model):
+        corr.evaluations += 1
+        corr.count('pointer-text-tie')
+        ctext = [l for l in src.splitlines() if f' {name}(' in l][0]
+        corr.nontrivial.add('ptrtie:' + hashlib.sha1(ctext.encode()).hexdigest())
+        want = m.split(';;')
+        if got != want:
+            j = next((i for i in range(min(len(got), len(want))) if got[i] != want[i]), min(len(got), len(want)))
+            corr.disagreements.append({'kind': 'asm-text', 'c': ctext, 'first_difference_at': j, 'chibicc': got[j:j + 4],
+                                       'model': want[j:j + 4], 'pointer_form': [form, t, esz],
+                                       'note': 'Model/C01Expr pointer arithmetic (scaleCode: index converted to long, 64-bit imul by the '
+                                               'element size) does not print what chibicc -S prints'})
+            return
+    corr.extra['pointer_functions_compared_with_chibicc_S'] = len(live)
 
 # ------------------------------------------------------------------ leg (c): X86 model vs CPU
 
@@ -933,6 +1092,11 @@ def x86_specs():
     for t in TYS + ['ptr', 'enum']:
         specs += [f'load {t}', f'store {t}']
     specs.append('push')
+    for d in (0, -1, -8, -9, -16, -17, -24, -4096, 8, 16, 127, -128, -129, 2147483647, -2147483648):
+        specs.append(f'lea {d}')          # gen_addr of a local: lea d(%rbp), %rax  (run with %rbp = the second register value)
+    for v in (0, 1, -1, 2, 255, 65535, 2147483647, 2147483648, -2147483648, -2147483649, 4294967295, 4294967296,
+              9223372036854775807, -9223372036854775808, 18446744073709551615, 9223372036854775808, 0x123456789abcdef0):
+        specs.append(f'imm {v}')          # ND_NUM: mov $v, %rax  (printed with %ld)
     cells = ['i8', 'i16', 'i32', 'i64', 'u8', 'u16', 'u32', 'u64', 'bool', 'enum', 'ptr']
     for a in cells:
         for b in cells:
@@ -957,12 +1121,15 @@ def check_cpu(ctx, corr, nrand):
             setup = '  lea 40(%rbx), %rax\n'
         elif kind == 'store':
             setup = '  lea 40(%rbx), %r11\n  push %r11\n  mov 0(%rbx), %rax\n'
+        elif kind == 'lea':
+            setup = '  push %rbp\n  mov 8(%rbx), %rbp\n  mov 0(%rbx), %rax\n'
         asm += (f'seq_{n}:  # {s}\n  push %rbx\n  push %r12\n  mov %rdi, %rbx\n  mov $1, %r11d\n  cmp $0, %r11d\n'
                 '  mov 16(%rbx), %rcx\n  mov 24(%rbx), %rdx\n  mov 8(%rbx), %rdi\n' + setup + '  mov %rsp, %r12\n'
                 + body +
                 '  pushfq\n  pop %r11\n  sub %rsp, %r12\n  mov %r12, 48(%rbx)\n  add %r12, %rsp\n'
                 '  mov %rax, 0(%rbx)\n  mov %rdi, 8(%rbx)\n  mov %rcx, 16(%rbx)\n  mov %rdx, 24(%rbx)\n'
-                '  mov %r11, 32(%rbx)\n' + ('  add $8, %rsp\n' if kind == 'store' else '') + '  pop %r12\n  pop %rbx\n  ret\n')
+                '  mov %r11, 32(%rbx)\n' + ('  add $8, %rsp\n' if kind == 'store' else '  pop %rbp\n' if kind == 'lea' else '')
+                + '  pop %r12\n  pop %rbx\n  ret\n')
     asm += '  .data\n  .globl seq_table\nseq_table:\n' + ''.join(f'  .quad seq_{n}\n' for n in range(len(live)))
     asm += f'  .globl seq_count\nseq_count:\n  .quad {len(live)}\n  .section .note.GNU-stack,"",@progbits\n'
     spath = os.path.join(ctx.scratch, 'seqs.s')
@@ -990,6 +1157,8 @@ def check_cpu(ctx, corr, nrand):
         else:
             cases += [(a, 0x11, 0x22, 0x33, a ^ 0x5555555555555555) for a in REGVALS]
             cases += [(0x77, 0x11, 0x22, 0x33, a) for a in REGVALS]
+            if kind == 'lea':
+                cases += [(0x77, a, 0x22, 0x33, 0) for a in REGVALS]
         for c in cases:
             cpu_in += f'{n} {c[0]} {c[1]} {c[2]} {c[3]} {c[4]}\n'
             drv_in += f'{s} | {c[0]} {c[1]} {c[2]} {c[3]} {c[4]}\n'
@@ -1082,11 +1251,16 @@ def correspond(ctx, corr):
                  'chibicc and gcc and run: value mod 2^64, sizeof and signedness of the expression type and the variables '
                  'afterwards must agree three ways.  non-trivial = has an operator or conversion context and involves a type '
                  'other than int; distinct by (context, variable types and values, expression).  Plus: asm text of 1,300+ '
-                 'one-operator functions against the model; every modelled instruction sequence against the host CPU.')
+                 'one-operator functions against the model; instruction text of generated expression trees (pure, and with , = op= '
+                 '++ --) and of every pointer-arithmetic form x element size x index type against compileE / compileX / scaleCode '
+                 '(non-trivial = more than 12 instructions); pointer scaling with byte offsets beyond 2^31 and 2^32 (non-trivial = '
+                 '|offset| >= 2^31); every modelled instruction sequence (incl. lea, mov $imm) against the host CPU.')
     known_witness(ctx, corr)
     check_sequences(ctx, corr)
     if not corr.disagreements:
         check_compile(ctx, corr, 700 if not ctx.thorough else 12000)
+    if not corr.disagreements:
+        check_pointer_text(ctx, corr)
     check_cpu(ctx, corr, 60 if not ctx.thorough else 1500)
     if corr.disagreements:
         return
@@ -1100,6 +1274,7 @@ def correspond(ctx, corr):
     if run_tests(ctx, corr, gen_random(ctx, 8000 if not ctx.thorough else 120000), 'nest'):
         return
     run_pointers(ctx, corr, 2 if not ctx.thorough else 20)
+    run_pointer_scaling(ctx, corr, 2 if not ctx.thorough else 40)
     corr.extra['exhaustive_subspace'] = ('operators x 9x9 operand type pairs x ' + ('all boundary x boundary value pairs' if ctx.thorough else 'sampled boundary/random value pairs') + '; 81 cast pairs and 4 unary operators x all boundary values; every instruction sequence of the model on the CPU')
 
 def search(ctx, broken, corr):
@@ -1110,6 +1285,7 @@ def search(ctx, broken, corr):
            or run_tests(ctx, c2, gen_random(ctx, 20000), 'search-nest'):
             break
     run_pointers(ctx, c2, 6)
+    run_pointer_scaling(ctx, c2, 8)
     corr.evaluations += c2.evaluations
     for v in c2.violations:
         if not v.get('known_id'):
@@ -1119,6 +1295,10 @@ def search(ctx, broken, corr):
 def replay(ctx, corr, path):
     payload = json.load(open(path))
     t = payload.get('test')
+    if payload.get('ptr_scale'):
+        run_pointer_scaling(ctx, corr, 0, only=payload['ptr_scale'])
+        print('replay:', 'still fails: ' + json.dumps(corr.violations[-1]['got']) if corr.violations else 'pointer arithmetic now has the C11 value')
+        return
     if not t:
         corr.extra['replay'] = 'replay file carries no generated test (proof/tie break without failing input)'
         print('replay: nothing to run')
@@ -1136,12 +1316,20 @@ MANIFEST = {
                   'unsigned, neg, not, cmp;sete - runs without CPU fault and leaves the C11 result whenever C11 defines it '
                   '(C01_binop, C01_shift, C01_unop, C01_unary_full, C01_lognot); sign/zero-extending loads and truncating stores '
                   'against byte-addressed memory (C01_load, C01_store); postfix ++/-- value formula for every type except _Bool '
-                  '(C01_incdec_partial; _Bool bit-fields / _Atomic _Bool are known finding C01-bool-postfix-incdec with a kernel-checked witness).  Tied every run '
-                  'by translators (tables), asm-text equality of 1,458 one-operator functions with chibicc -S, CPU execution of every '
+                  '(C01_incdec_partial; _Bool bit-fields / _Atomic _Bool are known finding C01-bool-postfix-incdec with a kernel-checked witness); '
+                  'COMPOSITION, by induction on the expression tree through the push/pop stack discipline over byte-addressed memory: '
+                  'every side-effect-free expression of arbitrary nesting (C01_value) and every expression with , = the ten op= and '
+                  'prefix/postfix ++ -- on variables, including the hidden pointer temporaries of parse.c and the swap of evaluation '
+                  'order under the C11 no-conflict condition (C01_value_effects; frame hypothesis discharged from offsets by C01_layout) '
+                  'leaves %rax representing the C11 value in the C11 type, the frame holding the C11 store, %rsp/%rbp and all other '
+                  'memory at or above %rsp unchanged; pointer arithmetic scales the index by a 64-bit multiplication of the '
+                  'sign/zero-extended index for every index type and value (C01_ptr_scale, C01_ptr_add, C01_ptr_diff).  Tied every run '
+                  'by translators (tables), asm-text equality of 1,458 one-operator functions, of generated expression trees and of 550+ pointer-arithmetic functions with chibicc -S, CPU execution of every '
                   'modelled sequence, and a three-way chibicc / Spec / gcc oracle on generated expression programs in every context.',
-    'level_note': 'Open: the composition over arbitrary nesting through the push/pop stack (C01_value_Statement; only the stack-free '
-                  'chains are proved) and the parse.c rewritings other than postfix ++/-- (op=, pointer scaling, argument/return/'
-                  'initializer conversion insertion) are not proved in Lean: they are covered by the end-to-end oracle (testing). '
+    'level_note': 'Not proved (no jumps in Model/X86): && || ?: inside expressions; postfix ++/-- on _Bool objects (two temporaries), '
+                  'lvalues other than variables (members, dereferences, bit-fields), compound assignment / ++ -- on pointers (modelled '
+                  'and text-tied, not proved), the typing function elab of parse.c as a whole (its table is proved: C01_op_type): '
+                  'covered by the text ties and the end-to-end oracle (testing). '
                   'Trusted: Spec/IntSpec (validated against gcc), Model/X86 (validated against the CPU), Model/C01Codegen (asm text tie).',
     'technique': 'Lean 4 bit-vector proofs (simp + omega over toNat/toInt, no bv_decide/native_decide) over regenerated tables; '
                  'whole-table decide; asm-text, CPU and three-way differential ties',
